@@ -133,6 +133,17 @@ var (
 	vpClientSess   int
 )
 
+// With several messages in flight at once each carries a tag (first byte of its LM response, which
+// the stub session reads back) that selects its own proof description.
+type vpProof struct {
+	userSel    int
+	msgUser    string
+	pwId       int
+	clientSess int
+}
+
+var vpProofTab map[byte]vpProof
+
 // vpPwId numbers the passwords around (0 = none/empty).
 func vpPwId(p string) int {
 	switch p {
@@ -148,6 +159,11 @@ func vpPwId(p string) int {
 
 func (s *vpSession) ProcessAuthenticateMessage(am *ntlm.AuthenticateMessage) error {
 	s.processed++
+	vpProofUserSel, vpMsgUser, vpProofPwId, vpClientSess := vpProofUserSel, vpMsgUser, vpProofPwId, vpClientSess
+	if vpProofTab != nil {
+		d := vpProofTab[am.LmChallengeResponse.Payload[0]]
+		vpProofUserSel, vpMsgUser, vpProofPwId, vpClientSess = d.userSel, d.msgUser, d.pwId, d.clientSess
+	}
 	if !s.keyCached {
 		s.keyCached = true
 		s.keyUser, s.keyPw = am.UserName.String(), s.pw
@@ -192,9 +208,12 @@ func vpNegotiateMsg() []byte {
 func vpDesc(n, off int) []byte { return append(append(vpLE16b(n), vpLE16b(n)...), vpLE32b(off)...) }
 
 // vpAuthenticateMsg: a well-formed NTLMv2 AUTHENTICATE_MESSAGE with the given UTF-16LE user name.
-func vpAuthenticateMsg(user16 []byte) []byte {
+func vpAuthenticateMsg(user16 []byte) []byte { return vpAuthenticateMsgTagged(user16, 0) }
+
+func vpAuthenticateMsgTagged(user16 []byte, tag byte) []byte {
 	const hdr = 88 // 8 sig + 4 type + 6 descriptors*8 + 4 flags + 8 version + 16 MIC
 	lm := make([]byte, 24)
+	lm[0] = tag
 	nt := make([]byte, 52)
 	nt[16], nt[17] = 1, 1 // RespType, HiRespType; AvPairs = MsvAvEOL at 44..47, then 4 reserved bytes
 	off := hdr
